@@ -14,8 +14,27 @@ EVN = {
 DEFAULT_TRIP = ["TRANSIENT", "SERVER_ERROR"]
 
 
+def gen_two_bucket_cycle(rng):
+    """two classes with their own thresholds; the circuit is tripped, recovers through a probe and is closed again; afterwards
+    failures of the two classes alternate, each staying below its own threshold (and below the global one): the per-class counts
+    must be independent of each other and of what was counted before the cycle"""
+    a, b = rng.sample(KLASSES, 2)
+    ta, tb = rng.choice([2, 3]), rng.choice([2, 3])
+    rto, win = rng.choice([1, 2, 5]), rng.choice([8, 64])
+    hist = [[0, "F", a]] * ta                                 # trips on a's own threshold
+    hist += [[rto, "A", None], [0, "S", None]]                # probe admitted and successful: closed again
+    after = []
+    for i in range(rng.randint(2, ta + tb - 2 + 1)):
+        after.append([rng.choice([0, 0, 1]), "F", [a, b][i % 2] if rng.random() < 0.8 else rng.choice([a, b])])
+    hist += after + [[0, "Q", None], [0, "A", None]]
+    return {"thr": ta + tb + 3, "win": win, "rto": rto, "trip_on": rng.choice([None, [], [a]]), "cthr": {a: ta, b: tb},
+            "t0": rng.choice([0, 1000]), "hist": [list(x) for x in hist]}
+
+
 def gen_case(rng, bias):
     """bias = 'count' (mostly CLOSED, counting rule) or 'cycle' (open / half-open cycles)."""
+    if bias == "count" and rng.random() < 0.06:
+        return gen_two_bucket_cycle(rng)
     win = rng.choice([1, 2, 3, 5, 8, 64])
     rto = rng.choice([1, 2, 3, 5, 8, 64])
     thr = rng.choice([1, 2, 2, 3, 3, 4, 5]) if bias == "count" else rng.choice([1, 1, 2, 2, 3])
